@@ -1,5 +1,5 @@
 #!/venv/bin/python
-"""Held-out evaluation: round-3 corpus (names *c-N breaking, *-ok4/-ok5 benign), materialised under /tmp/variants_r3.
+"""Held-out evaluation: round-3 corpus (names *c-N breaking, *-ok4/-ok5 benign) or, with HELDOUT_ROUND=4, round 4 (*d-N, *-ok6/-ok7), materialised under /tmp/variants_r<round>.
 usage: tools/heldout.py prepare | run [PROP,PROP...]"""
 import glob, json, os, subprocess, sys
 from concurrent.futures import ThreadPoolExecutor
@@ -8,12 +8,16 @@ sys.path.insert(0, os.path.join(here, "tools"))
 import importlib.util
 spec = importlib.util.spec_from_file_location("sweep", os.path.join(here, "tools", "sweep.py"))
 sweep = importlib.util.module_from_spec(spec); spec.loader.exec_module(sweep)
-V3 = "/tmp/variants_r3"
 ALL = ["C%02d" % i for i in range(1, 21)]
 
+ROUND = os.environ.get("HELDOUT_ROUND", "3")
+PATTERNS = {"3": ("*c-[0-9]", "*-ok[45]"), "4": ("*d-[0-9]", "*-ok[67]")}[ROUND]
+V3 = "/tmp/variants_r" + ROUND
+
+
 def names():
-    s = sorted(os.path.basename(d) for d in glob.glob(os.path.join(here, "seeded", "*c-[0-9]")))
-    b = sorted(os.path.basename(d) for d in glob.glob(os.path.join(here, "benign", "*-ok[45]")))
+    s = sorted(os.path.basename(d) for d in glob.glob(os.path.join(here, "seeded", PATTERNS[0])))
+    b = sorted(os.path.basename(d) for d in glob.glob(os.path.join(here, "benign", PATTERNS[1])))
     return s, b
 
 def prepare():
